@@ -1,5 +1,8 @@
 // src/runtime/ops/aggregate.rs
-use std::{collections::HashMap, vec::IntoIter};
+use std::{
+    collections::{HashMap, HashSet},
+    vec::IntoIter,
+};
 
 use crate::{
     runtime::{ExecutionStats, Executor, RuntimeError, RuntimeResult, eval::ExpressionEvaluator},
@@ -130,6 +133,8 @@ struct GroupBucket {
     key: Vec<DataType>,
     /// One accumulator per aggregate expression.
     accumulators: Vec<Accumulator>,
+    /// The values an aggregate over DISTINCT has seen so far (one set per aggregate expression).
+    seen: Vec<HashSet<DataType>>,
 }
 
 impl GroupBucket {
@@ -140,6 +145,7 @@ impl GroupBucket {
                 .iter()
                 .map(|agg| Accumulator::new(&agg.func))
                 .collect(),
+            seen: aggregates.iter().map(|_| HashSet::new()).collect(),
         }
     }
 }
@@ -219,7 +225,10 @@ impl<Child: Executor> HashAggregate<Child> {
             } else {
                 DataType::BigInt(1.into())
             };
-            bucket.accumulators[i].accumulate(&value)?;
+            // COUNT / SUM / AVG (DISTINCT x): a value the group has already fed is not fed again
+            if !agg_expr.distinct || bucket.seen[i].insert(value.clone()) {
+                bucket.accumulators[i].accumulate(&value)?;
+            }
         }
 
         Ok(())
